@@ -37,8 +37,18 @@ func main() {
 	prop := flag.String("prop", "", "property id (C01..C20), comma list, or 'all'")
 	canaryOnly := flag.Bool("canary", false, "run only the canaries")
 	dumpFns := flag.Bool("dump-functions", false, "print the function inventory of -repo (tables/functions.json) and exit")
+	dumpShapes := flag.Bool("dump-shapes", false, "print the result shapes per function of -repo (tables/resultshapes.json) and exit")
 	dumpCond := flag.Bool("dump-condatoms", false, "print the decision inputs per function of -repo (tables/condatoms.json) and exit")
 	flag.Parse()
+	if *dumpShapes {
+		w, err := loadWorld(*repo)
+		if err != nil {
+			fmt.Fprintln(os.Stderr, err)
+			os.Exit(2)
+		}
+		os.Stdout.Write(w.dumpResultShapes())
+		return
+	}
 	if *dumpCond {
 		w, err := loadWorld(*repo)
 		if err != nil {
